@@ -202,19 +202,37 @@ def build():
     one(r"nsec3_ttl\s*=\s*Some\(\s*min\(\s*soa_data\.minimum\(\)\s*,\s*soa_rr\.ttl\(\)\s*\)\s*\)\s*;", g3n, "generate_nsec3s ttl")
     one(r"nsec3param_ttl\s*=\s*match\s+config\.nsec3param_ttl_mode\s*\{\s*Nsec3ParamTtlMode::Fixed\(ttl\)\s*=>\s*Some\(ttl\)\s*,\s*Nsec3ParamTtlMode::Soa\s*=>\s*Some\(\s*soa_rr\.ttl\(\)\s*\)\s*,\s*Nsec3ParamTtlMode::SoaMinimum\s*=>\s*Some\(\s*soa_data\.minimum\(\)\s*\)\s*,?\s*\}", g3n, "nsec3param ttl modes")
     mk = fn_body(n3, "mk_nsec3")
-    m = one(r"Ok\(Record::new\(\s*owner_name\s*,\s*Class::(\w+)\s*,\s*ttl\s*,\s*nsec3\s*\)\)", mk, "mk_nsec3 class")
-    m2 = one(r"Class::(\w+)\s*,\s*nsec3param_ttl\s*,\s*config\.params\.clone\(\)", g3n, "nsec3param class")
     cl = strip_comments(read("src/base/iana/class.rs"))
-    mc = one(r"\(\s*%s\s*=>\s*(\d+)\s*," % re.escape(m.group(1)), cl, "Class value")
-    if m.group(1) != m2.group(1):
-        raise GenError("NSEC3 and NSEC3PARAM classes differ")
-    defs.append(("nsec3_class", "N", N(int(mc.group(1)))))
+    mfix = re.findall(r"Ok\(Record::new\(\s*owner_name\s*,\s*Class::(\w+)\s*,\s*ttl\s*,\s*nsec3\s*\)\)", mk)
+    mvar = re.findall(r"Ok\(Record::new\(\s*owner_name\s*,\s*class\s*,\s*ttl\s*,\s*nsec3\s*\)\)", mk)
+    if len(mfix) == 1 and not mvar:
+        # every NSEC3 and the NSEC3PARAM record get a fixed class
+        m2 = one(r"Class::(\w+)\s*,\s*nsec3param_ttl\s*,\s*config\.params\.clone\(\)", g3n, "nsec3param class")
+        if mfix[0] != m2.group(1):
+            raise GenError("NSEC3 and NSEC3PARAM classes differ")
+        mc = one(r"\(\s*%s\s*=>\s*(\d+)\s*," % re.escape(mfix[0]), cl, "Class value")
+        defs.append(("nsec3_class", "N", N(int(mc.group(1)))))
+        defs.append(("nsec3_class_fixed", "bool", B(True)))
+        extra = r""
+        pclass = r"Class::\w+"
+    elif len(mvar) == 1 and not mfix:
+        # the class of the SOA RRset, as in generate_nsecs
+        one(r"zone_class\s*=\s*Some\(\s*rrset\.class\(\)\s*\)\s*;", g3n, "generate_nsec3s zone_class")
+        one(r"class\s*:\s*Class\s*,\s*\)\s*->\s*Result<Record<N,\s*Nsec3<Octs>>", n3, "mk_nsec3 class parameter")
+        if re.search(r"Class::IN", strip_comments(g3n)) or re.search(r"Class::IN", mk):
+            raise GenError("generate_nsec3s: Class::IN still used next to zone_class")
+        defs.append(("nsec3_class", "N", N(1)))
+        defs.append(("nsec3_class_fixed", "bool", B(False)))
+        extra = r"\s*,\s*zone_class\.unwrap\(\)"
+        pclass = r"zone_class\.unwrap\(\)"
+    else:
+        raise GenError("mk_nsec3: class of the NSEC3 record not recognised")
     # the parameters handed to every NSEC3 and to the NSEC3PARAM record
-    calls = re.findall(r"mk_nsec3\(\s*&name\s*,\s*config\.params\.hash_algorithm\(\)\s*,\s*config\.params\.flags\(\)\s*,\s*config\.params\.iterations\(\)\s*,\s*config\.params\.salt\(\)\s*,\s*apex_owner\s*,\s*bitmap\s*,\s*nsec3_ttl\.unwrap\(\)\s*,?\s*\)", g3n)
+    calls = re.findall(r"mk_nsec3\(\s*&name\s*,\s*config\.params\.hash_algorithm\(\)\s*,\s*config\.params\.flags\(\)\s*,\s*config\.params\.iterations\(\)\s*,\s*config\.params\.salt\(\)\s*,\s*apex_owner\s*,\s*bitmap\s*,\s*nsec3_ttl\.unwrap\(\)" + extra + r"\s*,?\s*\)", g3n)
     if len(calls) != 2:
         raise GenError("generate_nsec3s: the two mk_nsec3(&name, config.params.*, apex_owner, bitmap, nsec3_ttl.unwrap()) calls changed")
     one(r"Nsec3::new\(\s*alg\s*,\s*flags\s*,\s*iterations\s*,\s*salt\.clone\(\)\s*,\s*placeholder_next_owner\s*,\s*bitmap\.finalize\(\)\s*,?\s*\)", mk, "mk_nsec3 Nsec3::new arguments")
-    one(r"Record::new\(\s*apex_owner\s*\.try_to_name::<Octs>\(\)\s*\.map_err\([^)]*\)\?\s*\.into\(\)\s*,\s*Class::\w+\s*,\s*nsec3param_ttl\s*,\s*config\.params\.clone\(\)\s*,?\s*\)", g3n, "NSEC3PARAM record")
+    one(r"Record::new\(\s*apex_owner\s*\.try_to_name::<Octs>\(\)\s*\.map_err\([^)]*\)\?\s*\.into\(\)\s*,\s*" + pclass + r"\s*,\s*nsec3param_ttl\s*,\s*config\.params\.clone\(\)\s*,?\s*\)", g3n, "NSEC3PARAM record")
     # ---------------------------------------------------------- record equality used by SortedRecords' dedup
     rd = strip_comments(read("src/base/rdata.rs"))
     ib = impl_body(rd, r"impl<Octs,\s*Other>\s+PartialEq<UnknownRecordData<Other>>\s+for\s+UnknownRecordData<Octs>\s+where[^{]*\{")
